@@ -29,10 +29,15 @@ def base_modules():
          m.add_func('i', 'i', [(1, I32)], local_get(0) + local_tee(1) + memop(0x2d) + local_get(1) + op(0x6a), export='e4'),
          m.add_func('', '', (), i32_const(200) + i32_const(0x5a) + memop(0x3a))]
     m.start = f[5]
+    # the import also sits in a table and is exported again (uses of an imported function outside function bodies)
+    m.tables.append((4, 4)); m.elems.append((0, i32_const(1), [0, f[1]]))
+    m.exports.append(('reexp', 0, 0))
     m.datas += [('active', 0, i32_const(0), bytes(range(1, 20))), ('passive', 0, b'', b'\x81\x82\x83\x84\x85'), ('active', 0, i32_const(32), b''),
                 ('active', 0, i32_const(40), bytes(range(100, 137)))]
     m.datacount = True
-    m.names = {0: 'host_mark', 1: 'call_mark', 2: 'inc_a', 3: 'inc_b', 4: 'init_and_load', 5: 'load_add', 6: 'start'}
+    # debug names (used with -g): duplicates, and duplicates that are also the export name of one of the two functions (function 2 is exported
+    # as e1, function 5 as e4): functions with ambiguous debug names must end up with distinct symbols
+    m.names = {0: 'host_mark', 1: 'e1', 2: 'e1', 3: 'inc', 4: 'inc', 5: 'e4', 6: 'e4'}
     calls = {'e0': [(5,)], 'e1': [(7,)], 'e2': [(0xffffffff,)], 'e3': [(64,), (66,), (0,), (18,), (40,), (76,), (200,)], 'e4': [(3,), (41,)]}
     out.append(('B1', m, calls, [('env', 'mark', 'i', 'i')]))
     # B2: no memory, table + call_indirect, no name section
@@ -45,19 +50,24 @@ def base_modules():
     out.append(('B2', m, {'e0': [(5, 1), (5, 2)]}, []))
     # B3: nine functions, mixed signatures, globals, partial name section
     m = Module()
+    m.import_func('env', 'init', '', '')          # an imported function as the start function
+    m.start = 0
     m.globals.append((I64, 1, i64_const(5)))
     for k in range(9):
+        # functions 1 and 2 (k = 0, 1) are NOT exported and are called by e3 / e4
         if k % 3 == 0:
-            m.add_func('I', 'I', (), local_get(0) + i64_const(k) + op(0x7c) + global_get(0) + op(0x7c), export='e%d' % k)
+            m.add_func('I', 'I', (), local_get(0) + (call(1) if k == 3 else b'') + i64_const(k) + op(0x7c) + global_get(0) + op(0x7c), export='e%d' % k if k else None)
         elif k % 3 == 1:
-            m.add_func('F', 'F', (), local_get(0) + f64_const(0x4000000000000000 + (k << 40)) + op(0xa2), export='e%d' % k)
+            m.add_func('F', 'F', (), local_get(0) + (call(2) if k == 4 else b'') + f64_const(0x4000000000000000 + (k << 40)) + op(0xa2), export='e%d' % k if k > 1 else None)
         else:
             m.add_func('iI', 'i', [(2, I64), (1, F32)], local_get(1) + local_set(2) + local_get(0) + local_get(2) + op(0xa7) + op(0x6a) + i32_const(k) + op(0x73), export='e%d' % k)
-    m.names = {2: 'two', 7: 'seven'}
+    # debug names (-g): the non-exported function 1 carries the name under which function 4 is exported ('e3'); the non-exported function 2 and
+    # the exported function 5 both have the debug name 'e4', which is also the export name of function 5
+    m.names = {1: 'e3', 2: 'e4', 5: 'e4', 3: 'two', 8: 'seven'}
     calls = {}
-    for k in range(9):
+    for k in range(2, 9):
         calls['e%d' % k] = [(11,)] if k % 3 == 0 else [(0x4008000000000000,)] if k % 3 == 1 else [(3, 4)]
-    out.append(('B3', m, calls, []))
+    out.append(('B3', m, calls, [('env', 'init', '', 'v')]))
     return out
 
 
@@ -76,6 +86,21 @@ def reference_variants(name, m):
     for k, fn in enumerate(m4.funcs):
         fn.body = fn.body + NOP * (k + 1)
     out.append(('disjoint', m4.encode()))
+    # the same bodies at OTHER function indices (rotated inside each group of functions with equal signature and locals, so the reference is
+    # still a valid module), and a reference with additional functions the module does not have
+    m5 = copy.deepcopy(m)
+    groups = {}
+    for fn in m5.funcs:
+        groups.setdefault((fn.typeidx, tuple(fn.locals)), []).append(fn)
+    for g in groups.values():
+        bodies = [fn.body for fn in g]
+        for fn, bd in zip(g, bodies[1:] + bodies[:1]):
+            fn.body = bd
+    out.append(('moved', m5.encode()))
+    m6 = copy.deepcopy(m)
+    for k in range(4):
+        m6.add_func('', '', (), NOP * (k + 1) + i32_const(k * 77) + DROP)
+    out.append(('extra-in-reference', m6.encode()))
     return out
 
 
@@ -203,7 +228,7 @@ def work(job):
                             fh.write(files[fn])
                 for fn in files:
                     if fn.endswith('.c'):
-                        r = subprocess.run(['gcc', '-fsyntax-only', '-w', '-I', os.path.join(REPO, 'w2c2'), '-I', wd, os.path.join(wd, fn)], stdout=subprocess.PIPE, stderr=subprocess.PIPE)
+                        r = subprocess.run(['gcc', '-fsyntax-only', '-w', '-Werror=implicit-function-declaration', '-I', os.path.join(REPO, 'w2c2'), '-I', wd, os.path.join(wd, fn)], stdout=subprocess.PIPE, stderr=subprocess.PIPE)
                         res['runs'] += 1
                         if r.returncode != 0:
                             res['problems'].append(('file-does-not-compile', desc, '%s: %s' % (fn, r.stderr.decode(errors='replace')[:200]))); break
@@ -458,7 +483,7 @@ def main(tier):
     chk.cov['behaviour_variants_linked_and_run'] = nb
     chk.cov['build_variants'] = nvar
     chk.cov['sched'] = sched
-    chk.cov['rule'] = ('E-config: 3 base modules x {-p}x{-m}x{-g} x {-f 0..#f+1} x {-t 1,2,3,64} x {-d arrays,gnu-ld} x {-r none,self,one-body-changed,locals-changed,disjoint}; '
+    chk.cov['rule'] = ('E-config: 3 base modules x {-p}x{-m}x{-g} x {-f 0..#f+1} x {-t 1,2,3,64} x {-d arrays,gnu-ld} x {-r none,self,one-body-changed,locals-changed,disjoint,moved (same bodies at other indices),extra-in-reference}; '
                        'oracles i-iv, vi per cell; (v) linked variants (gnu-ld via ld -r -b binary) run in lockstep with the reference interpreter; (vii) translator built in the '
                        'HAS_PTHREAD x HAS_GETOPT x HAS_LIBGEN x HAS_STRDUP configurations must write identical files; (viii) all valid control-flow bodies of the C03 enumerations (N = 3, thorough 4, incl. the contexts) translated with -p in lockstep with the reference; static classification also on a module with one function per code-entry size 8..300 bytes against references that differ only in the last / first constant; E-sched: the real producer/worker protocol under the controlled scheduler - every interleaving of its mutex/condition operations up to the preemption bound, see the sched block. '
                        'states = option cells + linked variants + build variants (+ distinct end states of schedules)')
